@@ -196,12 +196,31 @@ MERGE_MODES = ["tp", "th", "tj", "ta", "bj", "bb"]
 # Input classes on which the unmodified library is known to misbehave (notes/jpatch.md, "Deepening round"); generated only when
 # named in VERIF_JPATCH_OPEN (comma separated, or "all"); then the oracle reports them as violations.
 _open_env = [x for x in os.environ.get("VERIF_JPATCH_OPEN", "").split(",") if x]
-OPEN_CLASSES = ("jsreg-replace-root", "merge-nul-name", "parent-pointers", "jbl-double-text")
-# jsreg-replace-root: iwjsreg_replace(reg, "", x) reads n->next of a freed node; merge-nul-name: member names are compared with
-# strncmp in _jbl_merge_patch_node (and jbn_clone copies names / strings with strndup); parent-pointers: children taken over by
-# _jbl_copy_node_data keep the `parent` pointer of the patch node (freed in heap mode); jbl-double-text: jbl_merge_patch_jbl sends the
-# patch through JSON text (doubles rounded to 8 fraction digits)
-OPEN_ON = set(OPEN_CLASSES)     # all repaired in /repo (2e08aae, 662df5e, 219cddd, 61c2a75, 9a1d719): generated and judged on every run
+FIXED_CLASSES = ("jsreg-replace-root", "merge-nul-name", "parent-pointers", "jbl-double-text")   # repaired in /repo: always on
+# Round 7 (notes/jpatch.md): reported on the unmodified library, repairs delivered as fixes/jpatch-*.diff, tolerated by default
+# (not generated) until the integrator commits them; VERIF_JPATCH_OPEN=<name,...>|all turns them into judged cases:
+#   merge-subnode        jbn_merge_patch_from_json on a member of a larger tree + non-object patch wipes its name and sibling link
+#   merge-deep-clone     a value nested deeper than JBL_MAX_NESTING_LEVEL in a heap-mode merge: jbn_clone fails, 0 goes to _jbn_add_item
+#   merge-scalar-target  jbl_merge_patch / _jbl on a scalar binary document answers IW_ERROR_INVALID_ARGS (rfc7386: like {})
+#   jsreg-binary-nul     a binary-format registry reloads names / strings with strndup (zero bytes: heap over-read)
+R7_CLASSES = ("merge-subnode", "merge-deep-clone", "merge-scalar-target", "jsreg-binary-nul")
+OPEN_CLASSES = FIXED_CLASSES + R7_CLASSES
+_open_env = [x for x in os.environ.get("VERIF_JPATCH_OPEN", "").split(",") if x]
+OPEN_ON = set(FIXED_CLASSES) | (set(R7_CLASSES) if "all" in _open_env else set(x for x in _open_env if x in R7_CLASSES))
+
+
+def set_at(doc, segs, f):
+    """doc with the value at the member path replaced by f(value); MISSING when the path does not resolve through objects"""
+    if not segs:
+        return f(doc)
+    if not isinstance(doc, dict) or segs[0] not in doc:
+        return MISSING
+    r = set_at(doc[segs[0]], segs[1:], f)
+    if r is MISSING:
+        return MISSING
+    out = dict(doc)
+    out[segs[0]] = r
+    return out
 
 
 def member_path(doc, path_text):
@@ -376,6 +395,28 @@ def check(run):
             d = rng.choice([0.0009765625, 3.0517578125e-05, 5e-324, 1.0000152587890625, -0.00048828125])
             patch = {"a": d} if rng.chance(1, 2) else {"o": {"x": [1, d]}}
             cases.append({"kind": "merge", "doc": {"x": 1, "o": {"y": 2}}, "patch": patch, "origin": "double-text"})
+    if "merge-subnode" in OPEN_ON:
+        for _ in range(N // 6):
+            keys = [rng.choice(KEYS[:4] + ["k", "n"]) for _ in range(rng.range(2, 4))]
+            doc = {"a": gen_doc(rng, 2, keys), "b": 2, "c": {"d": gen_doc(rng, 1, keys), "e": [1]}}
+            path = rng.choice(["/a", "/b", "/c", "/c/d", "/c/e"])
+            patch = rng.choice([5, "s", None, [1, {"x": 2}], True, gen_patch_for(rng, {}, 2, keys), {"x": None, "y": [1]}])
+            cases.append({"kind": "msub", "doc": doc, "path": path, "patch": patch, "origin": "subnode"})
+    if "merge-deep-clone" in OPEN_ON:
+        for d in (2, 500, 998, 999, 1000, 1001, 1002, 1005, 1500):
+            cases.append({"kind": "mdeep", "doc": {"x": 1}, "depth": d, "origin": "deep"})
+    if "merge-scalar-target" in OPEN_ON:
+        for _ in range(N // 6):
+            keys = [rng.choice(KEYS) for _ in range(3)]
+            doc = rng.choice([5, "str", True, None, 0, -7, "", 1.5])
+            patch = rng.choice([gen_patch_for(rng, {}, 2, keys), {"n": 1}, {"n": {"z": None}}, {}, [1], 7, "t"])
+            cases.append({"kind": "merge", "doc": doc, "patch": patch, "origin": "scalar-target", "scalar": True})
+    if "jsreg-binary-nul" in OPEN_ON:
+        for _ in range(N // 6):
+            a, b = rng.choice([("a\x00b", "a\x00c"), ("\x00x", "\x00y"), ("k\x00", "k\x00z")])
+            doc = {a: rng.choice(["x\x00yz", 1, {"z": "s\x00"}]), "k": 1, "o": {b: "v\x00w"}}
+            val = rng.choice([{a: None}, {b: 2}, {a: {"q": 1}}, {"o": {b: None}}])
+            cases.append({"kind": "reg", "mode": "rmB", "doc": doc, "path": rng.choice(["/", "", "/o"]), "val": val, "origin": "binary-nul"})
     # merged documents the binary form cannot hold, and their storable near misses
     for _ in range(N // 2):
         doc, patch, what = gen_unrep_merge(rng)
@@ -390,7 +431,9 @@ def check(run):
             for m in MERGE_MODES:
                 if m == "bb" and not isinstance(c["patch"], (dict, list)):
                     continue
-                if m in ("bj", "bb") and not isinstance(c["doc"], (dict, list)):
+                if m in ("bj", "bb") and not isinstance(c["doc"], (dict, list)) and not c.get("scalar"):
+                    continue
+                if c.get("scalar") and m not in ("bj", "bb"):
                     continue
                 lines.append("merge %s %s %s" % (m, J.hx(dt), J.hx(pt)))
                 heap.append(m == "th")
@@ -400,6 +443,16 @@ def check(run):
                 lines.append("merge %s %s %s" % (m, J.hx(dt), J.hx(c["patch_text"])))
                 heap.append(False)
                 meta.append((ci, m))
+        elif c["kind"] == "msub":
+            c["patch_text"] = J.gen_json(c["patch"])
+            lines.append("msub %s %s %s" % (J.hx(dt), J.hx(c["path"]), J.hx(c["patch_text"])))
+            heap.append(False)
+            meta.append((ci, "ms"))
+        elif c["kind"] == "mdeep":
+            c["patch_text"] = "depth %d" % c["depth"]
+            lines.append("mdeep %d" % c["depth"])
+            heap.append(True)
+            meta.append((ci, "md"))
         elif c["kind"] == "regs":
             c["steps_text"] = J.gen_json(c["steps"])
             lines.append("regs %s %s" % (J.hx(dt), J.hx(c["steps_text"])))
@@ -408,9 +461,9 @@ def check(run):
         elif c["kind"] == "reg":
             vt = J.gen_json(c["val"]) if c["val"] is not MISSING else None
             c["val_text"] = vt
-            lines.append("reg %s %s %s %s" % (c["mode"][1], J.hx(dt), J.hx(c["path"]), J.hx(vt) if vt is not None else "-"))
+            lines.append("reg %s %s %s %s" % (c["mode"][1:], J.hx(dt), J.hx(c["path"]), J.hx(vt) if vt is not None else "-"))
             heap.append(True)
-            meta.append((ci, c["mode"]))
+            meta.append((ci, c["mode"][:2]))
         else:
             vt = J.gen_json(c["val"]) if c["val"] is not MISSING else None
             c["val_text"] = vt
@@ -450,6 +503,10 @@ def check(run):
         c = cases[ci]
         if c["kind"] == "regs":
             return "mode %s doc `%s` steps `%s`" % (m, c["doc_text"][:200], c["steps_text"][:300])
+        if c["kind"] == "msub":
+            return "mode %s doc `%s` path `%s` patch `%s`" % (m, c["doc_text"][:200], c["path"], c["patch_text"][:300])
+        if c["kind"] == "mdeep":
+            return "mode %s depth %d" % (m, c["depth"])
         return "mode %s doc `%s` %s" % (m, c["doc_text"][:200], ("patch `%s`" % c["patch_text"][:300]) if "patch_text" in c else
                                         "path `%s` val `%s`" % (c["path"], c.get("val_text")))
     if mism:
@@ -481,6 +538,15 @@ def check(run):
             rep["class"] = "jsreg-replace-root"
         if c.get("origin") == "nul-name":
             rep["class"] = "merge-nul-name"
+        if c.get("origin") in ("subnode", "deep", "scalar-target", "binary-nul"):
+            rep["class"] = {"subnode": "merge-subnode", "deep": "merge-deep-clone", "scalar-target": "merge-scalar-target",
+                            "binary-nul": "jsreg-binary-nul"}[c["origin"]]
+        if c["kind"] == "reg":
+            rep["mode"] = c["mode"]
+        if c["kind"] in ("msub", "mdeep"):
+            rep["kind"] = c["kind"]
+            rep["path"] = c.get("path")
+            rep["depth"] = c.get("depth")
         if c.get("origin") == "double-text":
             rep["class"] = "jbl-double-text"
         if " par=bad" in o or (c["kind"] == "regs" and any(st[0] == "r" for st in c["steps"])):
@@ -491,7 +557,7 @@ def check(run):
         if c["kind"] in ("mpath", "reg"):
             rep["path"] = c["path"]
             rep["val"] = c.get("val_text")
-        elif c["kind"] != "regs":
+        elif c["kind"] not in ("regs", "mdeep"):
             rep["patch"] = c["patch_text"]
 
         def viol(why):
@@ -528,6 +594,36 @@ def check(run):
         if f.get("par") == "bad":
             viol("after the merge a child's `parent` pointer is not the node that lists it (children taken over by "
                  "_jbl_copy_node_data keep pointing at the patch node / the freed clone): %s" % describe(i))
+            continue
+        if c["kind"] == "mdeep":
+            over = c["depth"] > 1000      # the copy of a value of 1000 levels still passes (the visitor counts from 0)
+            run.dist("deep:%s" % ("over" if over else "within"))
+            if "rc" not in f:
+                run.broken.append("T2 harness: unexpected answer `%s`" % o[:200])
+            elif over and (f["rc"] == "ok" or f.get("members") != "1"):
+                viol("a value nested %d deep cannot be copied (JBL_MAX_NESTING_LEVEL): the merge must fail and leave the target: %s" % (c["depth"], o[:200]))
+            elif not over and (f["rc"] != "ok" or f.get("members") != "2"):
+                viol("a value nested %d deep is within the limit, the merge reports %s" % (c["depth"], f["rc"]))
+            elif over and f.get("leak") == "1":
+                viol("the failed merge of a %d deep value leaks the part copied so far (LeakSanitizer)" % c["depth"])
+            continue
+        if c["kind"] == "msub":
+            run.dist("subnode")
+            if "rc" not in f or "doc" not in f:
+                continue
+            try:
+                got = J.parse_dump(f["doc"])
+            except J.DumpError:
+                viol("merging into a member of a larger tree left no well-formed document (the member lost its name / its sibling "
+                     "link): %s -> %s" % (describe(i), o[:200]))
+                continue
+            pv = J.from_py(c["patch"])
+            exp = set_at(orig, J.ptr_parse(c["path"]), lambda v: merge_patch(J.clone(v), J.clone(pv)))
+            if f["rc"] != "ok":
+                viol("RFC 7386 defines the result, the library reports %s: %s" % (f["rc"], describe(i)))
+            elif not J.eq_unordered(got, exp, False):
+                viol("merging into the member at %s: the document differs from the one with MergePatch(member, patch) in its place: "
+                     "%s -> %s, expected %s" % (c["path"], describe(i), f["doc"], J.to_json(exp)))
             continue
         if c["kind"] == "regs":
             run.dist("registry:seq")
